@@ -49,6 +49,12 @@ CHECKS = {
         "Trusted: json, bytes.hex/fromhex, argparse. inspect.signature is applied to stdlib callables only.",
         "DESIGN.md 3/C20",
     ),
+    "C09": (
+        "interprocedural order-taint analysis (unordered / file-system-ordered values vs order-observing uses, sorted() as sanitiser), write-effect analysis with call-site freshness, entropy-source census, stdlib source inspection of the registry enumerators",
+        "Decides that no set / hash-ordered / file-system-ordered value reaches result order unsorted on the registry-build and scan paths, that the scan path writes no state shared between activations (so repeated, re-used and concurrent scans cannot influence each other through the library), that no entropy source is consulted, and that ties of the stable sort are registry order then decoder-return order.",
+        "Trusted: sorted()/sort() determinism and stability, dict insertion order, thread-safety and determinism of regex and pefile internals, that pkgutil.iter_modules / inspect.getmembers sort (re-checked in the stdlib source of the repository's interpreter).",
+        "DESIGN.md 2.8, 3/C09",
+    ),
     "C07": (
         "reaching-condition dominance (truth table over the depth guard) + linear form of recursive depth arguments + def-use census of the depth parameter",
         "Static analysis of scan/scan_node: every decoder call, recursive call and tree mutation is dominated by DEPTH >= 1; every recursive call passes DEPTH - c, c >= 1; the depth parameter flows nowhere else. These three facts are the whole truncation mechanism; the prefix relation between the trees for k and k+1 is a paper consequence of them plus C08, not mechanically proved.",
